@@ -1,5 +1,5 @@
 """C03: CFG equals the control flow of the edited listing, per instruction."""
-from .. import oracles
+from .. import gen_rewrite, oracles
 from . import rwbase
 
 PROP = "C03"
@@ -25,7 +25,11 @@ ASSUMPTIONS = [
 BUDGET = {"quick": (6000, 40), "thorough": (250000, 540)}
 REQUIRED_COUNTERS = ["applies", "edges_compared", "instructions_compared"]
 
-gen_case = rwbase.gen_case
+def gen_case(rng, tier, index):
+    # (more calls into one function and more function-centred edit sets than
+    # the other listing checks: return edges are this property's subject)
+    return gen_rewrite.generate(rng, tier, popular_callee_p=0.35,
+                                themed_p=0.4)
 
 
 def run_case(case):
